@@ -41,6 +41,13 @@ class Actors:
         def on_add(self, entity, world):
             it.life_cb(self, entity, world)
         ns['on_add'] = on_add
+        heq = config.get('heq')
+        if heq == 'equal':          # value equality: all instances of a
+            ns['__eq__'] = lambda a, b: type(a) is type(b)   # class are equal
+            ns['__hash__'] = lambda a: 7
+        elif heq == 'unhashable':   # __eq__ without __hash__ (a dataclass)
+            ns['__eq__'] = lambda a, b: a is b
+            ns['__hash__'] = None
         self.HRoot = type('HRoot', (), ns)
         self.Mixin = type('Mixin', (), {'helper': lambda self: None})
         self.classes = []
@@ -967,6 +974,11 @@ def gen_config(prop, rng):
     cfg = {'policy': rng.choice(kernel.POLICIES), 'dkind': dkind,
            'hclasses': hclasses, 'handlers': handlers,
            'cyclic': [], 'weak_slots': []}
+    r = rng.random()
+    if r < .2:
+        # listeners with value equality (think dataclasses): registration is
+        # per object, whatever the objects compare like
+        cfg['heq'] = 'equal' if r < .1 else 'unhashable'
     if rng.random() < .25:
         cfg['returns'] = {str(s): rng.choice('TTF01sN') for s in range(n)
                           if rng.random() < .6}
@@ -1118,7 +1130,12 @@ def generate(prop, run_seed, tier='quick', tolerate=frozenset()):
     base = {'format': 1, 'engine': 'dispatch', 'config': cfg, 'ops': ops,
             'scripts': {}, 'run_seed': run_seed}
     # dry run of the fault-free base: which activations exist
-    dry = execute(copy.deepcopy(base), prop, tolerate)
+    try:
+        dry = execute(copy.deepcopy(base), prop, tolerate)
+    except Exception:
+        # the library raised where the oracle did not expect it: executing
+        # the base scenario reports it (runner.run_one)
+        return [base]
     acts = dry.get('activations', [])
     if dry.get('violation') is not None or not acts:
         return [base]
